@@ -315,6 +315,28 @@ func runC18(c *Ctx) {
 	if nSend < 5 {
 		R.Fatal("only %d pointer sends found in service (anchor)", nSend)
 	}
+	// ---- the same across calls: a pointer given to a function that may send it on a channel is not used afterwards
+	{
+		svc := c.RepoFuncs("service")
+		sum := c.handOverSummaries(svc)
+		nH := 0
+		for _, fn := range svc {
+			n, bad := c.useAfterHandOver(fn, sum)
+			if n == 0 {
+				continue
+			}
+			nH += n
+			st, d := report.Discharged, ""
+			if len(bad) > 0 {
+				st, d = report.Violated, strings.Join(dedupe(bad), "; ")
+			}
+			R.Add("E5.use-after-send", fmt.Sprintf("%s / pointers handed to functions that send them", shortFn(fn)), c.P.RelPos(fn.Pos()), st, d)
+		}
+		R.Notes["hand_over_call_sites"] = nH
+		if nH < 2 {
+			R.Fatal("only %d call sites that hand a pointer to a sending function were found in service (confirmed by hand: onActiveRespondEvent / onActiveCompleteEvent)", nH)
+		}
+	}
 	// ---- E4: a reader refilling a buffer that a delivered message aliases is a race with the writer
 	c.e4Service()
 	roleNames := map[string]int{}
